@@ -23,7 +23,8 @@ Oracles (property-level, independent of the model):
   (b) ISA level (map_isa.py): for spec-directed instruction sequences (length 1..8) of every ISA module with
       semantics, `concrete_state >> mapper(instrs)` vs executing the instructions one at a time on the
       concrete state; "stays symbolic" is accepted, a different constant is a violation, an exception on
-      either route is counted, not reported (C01/C17 matter).
+      either route is counted, not reported (C01/C17 matter).  Phase 1d of map_isa.py draws immediates and register
+      values from boundary classes per operand width (shift counts at / above the width, sign bit set, all-ones).
 """
 import sys, json, time, os
 from common import *
@@ -208,8 +209,9 @@ def main(tier):
     except ImportError:
         map_isa = None
     if map_isa is not None and not os.environ.get("MAP_NO_ISA"):
-        budget = 95 if quick else 900
-        map_isa.run(ck, tier, rng("C02-isa"), budget)
+        # of which phase 1d (operands and immediates at the boundaries of the operand widths) has its own part
+        budget, boundary = (111, 16) if quick else (1050, 150)
+        map_isa.run(ck, tier, rng("C02-isa"), budget, boundary)
         ck.oblige("ISA-level oracle ran", True)
     else:
         ck.oblige("ISA-level oracle ran", bool(os.environ.get("MAP_NO_ISA")), "harness/map_isa.py missing")
@@ -239,8 +241,12 @@ def main(tier):
                    "compiled Lean driver drv_map", "C08 zone model and its theorems"]
     return ck.finish("IR programs of 1..8 statements in 4 profiles (registers only / concrete addresses / pointers / mixed), both byte orders, "
                      "4 settings, 2+ pointer assignments each; pairs of programs for composition; spec-directed instruction sequences "
-                     "(length 1..8) of every ISA module with semantics on 2 concrete states under 4 settings; non-trivial = the oracle "
-                     "compared a final state")
+                     "(length 1..8) of every ISA module with semantics on 2 concrete states under 4 settings; width-boundary phase "
+                     "(1d): every spec of a mnemonic whose semantics hold a shift/rotate operator, its immediates (found by decoding) "
+                     "set to 0, 1, width-1, width, width+1, 31, all-ones for the widths of its operands, prefixed variants with other "
+                     "operand widths, register-count forms and short chains, from boundary states (sign bit of every 8/16/32/64-bit "
+                     "sub-width set, all-ones, mixed with shift counts / only-top-bit / largest positive / 0 / 1); non-trivial = the "
+                     "oracle compared a final state")
 
 
 def replay(path):
